@@ -5,6 +5,7 @@
 package main
 
 import (
+	"encoding/json"
 	"fmt"
 	"go/ast"
 	"go/constant"
@@ -12,18 +13,21 @@ import (
 	"go/token"
 	"os"
 	"path/filepath"
+	"reflect"
+	"runtime"
 	"sort"
 	"strconv"
 	"strings"
 )
 
 type tr struct {
-	fset  *token.FileSet
-	files map[string]*ast.File
-	decls map[string]ast.Expr // package-level const/var name -> value expr
-	funcs map[string]*ast.FuncDecl
-	errs  []string
-	out   strings.Builder
+	fset   *token.FileSet
+	files  map[string]*ast.File
+	decls  map[string]ast.Expr // package-level const/var name -> value expr
+	funcs  map[string]*ast.FuncDecl
+	errs   []string
+	out    strings.Builder
+	status []itemStatus
 }
 
 func (t *tr) errf(f string, a ...any) { t.errs = append(t.errs, fmt.Sprintf(f, a...)) }
@@ -74,24 +78,41 @@ func main() {
 			}
 		}
 	}
-	t.emitAll()
-	if len(t.errs) > 0 {
-		for _, e := range t.errs {
-			fmt.Fprintln(os.Stderr, "consts: "+e)
-		}
+	refPath := ""
+	if len(os.Args) > 3 {
+		refPath = os.Args[3]
+	}
+	failed := t.emitAll(refPath)
+	for _, e := range t.errs {
+		fmt.Fprintln(os.Stderr, "consts: "+e)
+	}
+	if failed < 0 { // an item failed and no reference text was available for it
 		os.Exit(2)
 	}
 	if outPath == "" {
 		fmt.Print(t.out.String())
-		return
-	}
-	old, _ := os.ReadFile(outPath)
-	if string(old) != t.out.String() {
-		if err := os.WriteFile(outPath, []byte(t.out.String()), 0o644); err != nil {
-			fmt.Fprintln(os.Stderr, err)
-			os.Exit(2)
+	} else {
+		old, _ := os.ReadFile(outPath)
+		if string(old) != t.out.String() {
+			if err := os.WriteFile(outPath, []byte(t.out.String()), 0o644); err != nil {
+				fmt.Fprintln(os.Stderr, err)
+				os.Exit(2)
+			}
 		}
+		b, _ := json.MarshalIndent(t.status, "", " ")
+		os.WriteFile(outPath+".status.json", b, 0o644)
 	}
+	if failed > 0 {
+		os.Exit(3) // Consts.v written, but some items fell back to their reference text
+	}
+}
+
+// itemStatus records, per translator item, whether it could be regenerated from the tree.
+type itemStatus struct {
+	Name string   `json:"name"`
+	OK   bool     `json:"ok"`
+	Errs []string `json:"errs,omitempty"`
+	Text string   `json:"text"`
 }
 
 func hasBuildTagVerif(f *ast.File) bool {
@@ -285,12 +306,53 @@ func coqStr(s string) string {
 
 func (t *tr) p(f string, a ...any) { fmt.Fprintf(&t.out, f, a...) }
 
-func (t *tr) emitAll() {
-	t.p("(* GENERATED by harness/cmd/consts from the working tree of /repo. Do not edit. *)\n")
-	t.p("From Coq Require Import List NArith ZArith.\nFrom CM Require Import Lib.Str Lib.SafeSteps.\nImport ListNotations.\nOpen Scope N_scope.\n\n")
-	for _, item := range items {
-		item(t)
+// emitAll runs every item separately. An item that fails (fail closed: missing declaration,
+// unexpected shape) contributes its text from the reference status file (written by `setup` on the
+// unchanged tree) so that the other models still build; its failure is recorded and reported by the
+// driver for the properties that item serves. Returns the number of failed items, -1 if one failed
+// without reference text.
+func (t *tr) emitAll(refPath string) int {
+	ref := map[string]string{}
+	if refPath != "" {
+		if b, err := os.ReadFile(refPath); err == nil {
+			var st []itemStatus
+			if json.Unmarshal(b, &st) == nil {
+				for _, i := range st {
+					if i.OK {
+						ref[i.Name] = i.Text
+					}
+				}
+			}
+		}
 	}
+	var all strings.Builder
+	all.WriteString("(* GENERATED by harness/cmd/consts from the working tree of /repo. Do not edit. *)\n")
+	all.WriteString("From Coq Require Import List NArith ZArith.\nFrom CM Require Import Lib.Str Lib.SafeSteps.\nImport ListNotations.\nOpen Scope N_scope.\n\n")
+	failed := 0
+	for _, item := range items {
+		name := runtime.FuncForPC(reflect.ValueOf(item).Pointer()).Name()
+		name = name[strings.LastIndex(name, ".")+1:]
+		t.out.Reset()
+		before := len(t.errs)
+		item(t)
+		st := itemStatus{Name: name, OK: len(t.errs) == before, Text: t.out.String()}
+		if !st.OK {
+			st.Errs = append([]string(nil), t.errs[before:]...)
+			if txt, ok := ref[name]; ok {
+				st.Text = txt
+				if failed >= 0 {
+					failed++
+				}
+			} else {
+				failed = -1
+			}
+		}
+		t.status = append(t.status, st)
+		all.WriteString(st.Text)
+	}
+	t.out.Reset()
+	t.out.WriteString(all.String())
+	return failed
 }
 
 var items = []func(*tr){emitSafe, emitPrefixes, emitFileLockNames, emitAccountNames}
